@@ -58,6 +58,8 @@ struct Sim {
     std::vector<std::vector<uint16_t>> cbstore;         // callback-backed areas
     uint64_t cb_reads = 0, cb_writes = 0, cb_writes_op = 0;
     bool cb_oob = false;
+    int64_t cb_fail_in = -1;   // injected fault: the k-th callback access from now fails with an I/O error (-1 = none)
+    bool cb_fault() { if (cb_fail_in < 0) return false; if (cb_fail_in-- == 0) { c.faults_fired++; COUNT("fault.callback_area_io_error"); return true; } return false; }
     // model
     std::vector<std::vector<uint16_t>> M;               // words per area
     std::vector<char> touched;
@@ -71,6 +73,7 @@ struct Sim {
         Sim *s = g_sim; RegisterAccess rv = REG_ACCESS_RESULT_INIT;
         size_t i = (size_t)(a - s->areas);
         s->c.ev(EV_AREA_RD, i, off, n); s->cb_reads++;
+        if (s->cb_fault()) { rv.code = REG_ACCESS_IO_ERROR; rv.address = off; return rv; }
         if (i >= s->cbstore.size() || (uint64_t)off + n > s->cbstore[i].size()) { s->cb_oob = true; rv.code = REG_ACCESS_IO_ERROR; return rv; }
         if (n) memcpy(dest, s->cbstore[i].data() + off, n * 2);
         return rv;
@@ -79,6 +82,7 @@ struct Sim {
         Sim *s = g_sim; RegisterAccess rv = REG_ACCESS_RESULT_INIT;
         size_t i = (size_t)(a - s->areas);
         s->c.ev(EV_AREA_WR, i, off, n); s->cb_writes++; s->cb_writes_op++;
+        if (s->cb_fault()) { rv.code = REG_ACCESS_IO_ERROR; rv.address = off; return rv; }
         if (i >= s->cbstore.size() || (uint64_t)off + n > s->cbstore[i].size()) { s->cb_oob = true; rv.code = REG_ACCESS_IO_ERROR; return rv; }
         if (n) memcpy(s->cbstore[i].data() + off, src, n * 2);
         return rv;
@@ -92,7 +96,8 @@ struct Sim {
     }
 
     // ---------------- build the library objects from the (possibly defective) description
-    void build(bool fresh_storage) {
+    void build(bool fresh_storage, bool keep_flags = false) {
+        const uint16_t old_flags = tbl.flags;
         free(areas); free(entries);
         size_t na = spec.areas.size(), nr = spec.regs.size();
         areas = (RegisterArea *)calloc(na + 1, sizeof(RegisterArea));
@@ -130,6 +135,7 @@ struct Sim {
         entries[nr].type = REG_TYPE_INVALID;
         memset(&tbl, 0, sizeof tbl);
         tbl.area = areas; tbl.entry = entries;
+        if (keep_flags) tbl.flags = old_flags;   // the same table object whose description was edited: its state stays
         register_make_bigendian(&tbl, spec.be);
         g_sim = this;
     }
@@ -174,15 +180,15 @@ struct RegHarness : Harness {
     }
     std::vector<std::string> probes(const std::string &p) const override {
         if (p == "C01") return {"handle_eq_entries", "handle_beyond", "float_nan", "float_inf", "float_subnormal", "float_negative_zero", "type_mismatch_refused",
-                                "constraint_refused", "always_fail_refused", "set_accepted", "unsafe_bypasses_constraint", "callback_area_set", "get_undecodable_storage", "big_endian_table"};
+                                "constraint_refused", "always_fail_refused", "set_accepted", "unsafe_bypasses_constraint", "callback_area_set", "get_undecodable_storage", "big_endian_table", "sanitise_left_through_error_path"};
         if (p == "C02") return {"write_inside_64bit_register", "partial_overlap_violates_constraint", "block_spans_two_areas", "block_into_readonly", "block_into_hole",
                                 "block_write_accepted", "block_decode_failure", "zero_length_write", "readonly_not_at_request_start"};
         if (p == "C03") return {"read_write_only_area_mid_area", "read_spans_two_areas", "read_into_hole", "zero_length_read", "iteration_starts_in_gap", "iteration_starts_mid_register",
                                 "iteration_stopped_by_callback", "iteration_negative_callback", "iteration_visits_several"};
         if (p == "C04") return {"defect_no_areas", "defect_areas_swapped", "defect_area_overlap", "defect_regs_swapped", "defect_reg_overlap", "defect_reg_straddles_area_end",
-                                "defect_reg_in_hole", "defect_bad_default", "wellformed_accepted", "restart_over_surviving_callback_storage", "ops_report_uninitialised", "empty_area_between_populated"};
+                                "defect_reg_in_hole", "defect_bad_default", "wellformed_accepted", "restart_over_surviving_callback_storage", "ops_report_uninitialised", "empty_area_between_populated", "reinit_of_initialised_table_rejected"};
         return {"invariant_checked_ops", "refused_op_left_storage_unchanged", "bit_set_exact", "bit_clear_exact", "bit_op_refused_signed_or_float", "sanitise_reset_some_kept_some",
-                "corrupt_then_sanitise", "block_write_refused_by_constraint"};
+                "corrupt_then_sanitise", "block_write_refused_by_constraint", "sanitise_left_through_error_path"};
     }
     Json describe(const std::string &p) const override {
         Json d = Json::obj();
@@ -395,6 +401,10 @@ struct RegHarness : Harness {
             }
             if (k == "bw" && r.chance(1, 4)) for (auto &w : words.a) if (w.i < 0 && r.chance(1, 2)) w = Json((long long)r.below(65536));
             o["w"] = words;
+        } else if (k == "sanitise_any") {
+            o["cbfail"] = (long long)(r.chance(1, 2) ? -1 : (int64_t)r.below(6));   // an I/O error at the k-th callback-area access of the call, or none
+        } else if (k == "redefect") {
+            o["d"] = (long long)r.below(9); o["salt"] = (long long)r.below(1 << 20);
         } else if (k == "foreach") {
             uint32_t addr = (uint32_t)r.range(0, hi);
             if (nr && r.chance(1, 2)) { const RegSpec &g = t.regs[r.below(nr)]; int64_t a = (int64_t)g.addr + r.range(-2, (int64_t)wsize(g.type)); if (a < 0) a = 0; addr = (uint32_t)a; }
@@ -404,34 +414,38 @@ struct RegHarness : Harness {
         return o;
     }
 
+    static void apply_defect(TableSpec &ts, int defect, Rng &r) {
+        size_t na = ts.areas.size(), nr = ts.regs.size();
+        switch (defect) {
+        case 0: ts.areas.clear(); break;
+        case 1: if (na >= 2) { size_t i = r.below(na - 1); std::swap(ts.areas[i], ts.areas[i + 1]); } break;
+        case 2: if (na >= 2) { size_t i = 1 + r.below(na - 1); ts.areas[i].base = ts.areas[i - 1].base + ts.areas[i - 1].size - 1; } break;
+        case 3: if (nr >= 2) { size_t i = r.below(nr - 1); std::swap(ts.regs[i], ts.regs[i + 1]); } break;
+        case 4: if (nr >= 2) { size_t i = 1 + r.below(nr - 1); ts.regs[i].addr = ts.regs[i - 1].addr + wsize(ts.regs[i - 1].type) - 1; } break;
+        case 5: if (nr >= 1 && na >= 1) { size_t i = r.below(nr); int ai = ts.area_of_addr(ts.regs[i].addr); if (ai >= 0 && wsize(ts.regs[i].type) > 1) ts.regs[i].addr = ts.areas[(size_t)ai].base + ts.areas[(size_t)ai].size - (uint32_t)r.range(1, wsize(ts.regs[i].type) - 1); } break;
+        case 6: if (nr >= 1) { size_t i = r.below(nr); uint32_t hi = window_hi(ts); ts.regs[i].addr = r.chance(1, 2) ? hi + (uint32_t)r.below(4) : ts.regs[i].addr + (uint32_t)r.range(1, 6); } break;
+        case 7: if (nr >= 1) { size_t i = r.below(nr); RegSpec &g = ts.regs[i];
+                if (g.ck == CK_MIN) g.def = (g.a - 1) & tmask(g.type); else if (g.ck == CK_MAX) g.def = (g.a + 1) & tmask(g.type); else if (g.ck == CK_RANGE) g.def = (g.b + 1) & tmask(g.type);
+                else if (g.ck == CK_CB && g.rule == 1) g.def = g.a; else if (is_float(g.type)) g.def = g.type == T_F32 ? 0x7fc00000 : 0x7ff8000000000000ull; } break;
+        case 8: if (nr >= 1) { size_t i = r.below(nr); RegSpec &g = ts.regs[i]; if (is_float(g.type)) g.def = interesting(r, g.type, nullptr); else g.def = interesting(r, g.type, &g); } break;
+        default: break;
+        }
+    }
+
     Json gen(const std::string &prop, Rng &r, const Tier &t, uint64_t) override {
         Json p = Json::obj();
         TableSpec ts = gen_table(r, prop);
         std::vector<std::string> kinds;
-        if (prop == "C01") kinds = {"set", "set", "set", "set_unsafe", "get", "get", "default", "corrupt"};
+        if (prop == "C01") kinds = {"set", "set", "set", "set", "set_unsafe", "get", "get", "default", "corrupt", "sanitise_any"};
         else if (prop == "C02") kinds = {"bw", "bw", "bw", "bw", "corrupt", "touchcheck"};
         else if (prop == "C03") kinds = {"br", "br", "foreach", "foreach", "corrupt"};
-        else if (prop == "C04") kinds = {"corrupt", "restart", "probe_ops", "poststate"};
-        else kinds = {"set", "set", "bit_set", "bit_clear", "bw", "bw", "sanitise", "corrupt"};
+        else if (prop == "C04") kinds = {"corrupt", "restart", "probe_ops", "poststate", "redefect"};
+        else kinds = {"set", "set", "set", "bit_set", "bit_clear", "bw", "bw", "sanitise", "sanitise_any", "corrupt"};
         if (prop == "C04") {
             // perturb the description by at most one defect
             int defect = r.chance(1, 3) ? -1 : (int)r.below(9);
             p["defect"] = defect;
-            size_t na = ts.areas.size(), nr = ts.regs.size();
-            switch (defect) {
-            case 0: ts.areas.clear(); break;
-            case 1: if (na >= 2) { size_t i = r.below(na - 1); std::swap(ts.areas[i], ts.areas[i + 1]); } break;
-            case 2: if (na >= 2) { size_t i = 1 + r.below(na - 1); ts.areas[i].base = ts.areas[i - 1].base + ts.areas[i - 1].size - 1; } break;
-            case 3: if (nr >= 2) { size_t i = r.below(nr - 1); std::swap(ts.regs[i], ts.regs[i + 1]); } break;
-            case 4: if (nr >= 2) { size_t i = 1 + r.below(nr - 1); ts.regs[i].addr = ts.regs[i - 1].addr + wsize(ts.regs[i - 1].type) - 1; } break;
-            case 5: if (nr >= 1 && na >= 1) { size_t i = r.below(nr); int ai = ts.area_of_addr(ts.regs[i].addr); if (ai >= 0 && wsize(ts.regs[i].type) > 1) ts.regs[i].addr = ts.areas[(size_t)ai].base + ts.areas[(size_t)ai].size - (uint32_t)r.range(1, wsize(ts.regs[i].type) - 1); } break;
-            case 6: if (nr >= 1) { size_t i = r.below(nr); uint32_t hi = window_hi(ts); ts.regs[i].addr = r.chance(1, 2) ? hi + (uint32_t)r.below(4) : ts.regs[i].addr + (uint32_t)r.range(1, 6); } break;
-            case 7: if (nr >= 1) { size_t i = r.below(nr); RegSpec &g = ts.regs[i];
-                    if (g.ck == CK_MIN) g.def = (g.a - 1) & tmask(g.type); else if (g.ck == CK_MAX) g.def = (g.a + 1) & tmask(g.type); else if (g.ck == CK_RANGE) g.def = (g.b + 1) & tmask(g.type);
-                    else if (g.ck == CK_CB && g.rule == 1) g.def = g.a; else if (is_float(g.type)) g.def = g.type == T_F32 ? 0x7fc00000 : 0x7ff8000000000000ull; } break;
-            case 8: if (nr >= 1) { size_t i = r.below(nr); RegSpec &g = ts.regs[i]; if (is_float(g.type)) g.def = interesting(r, g.type, nullptr); else g.def = interesting(r, g.type, &g); } break;
-            default: break;
-            }
+            apply_defect(ts, defect, r);
         }
         p["table"] = spec_json(ts);
         Json ops = Json::arr();
@@ -474,7 +488,7 @@ struct RegHarness : Harness {
         const Json &ops = plan.get("ops");
         for (size_t oi = 0; oi < ops.size(); ++oi) {
             run_op(S, ops.at(oi), oi);
-            if (!c.viol.empty()) return;
+            if (!c.viol.empty() || !S.inited) return;
         }
     }
 
@@ -676,6 +690,34 @@ struct RegHarness : Harness {
             return;
         }
         if (op == "sanitise") { op_sanitise(S, F); return; }
+        if (op == "sanitise_any") {
+            // not judged (the property only speaks about sanitise on tables it can repair): run it, possibly with an I/O error
+            // injected behind the area seam, and carry on from whatever state it leaves - later operations are judged as usual
+            S.cb_fail_in = o.geti("cbfail", -1);
+            RegisterAccess a = register_sanitise(&S.tbl);
+            S.cb_fail_in = -1;
+            c.ev(EV_API, 9, (uint64_t)a.code, a.address); c.execs++;
+            if (a.code != REG_ACCESS_SUCCESS) COUNT("probe.sanitise_left_through_error_path");
+            S.sync_model_from_actual();
+            return;
+        }
+        if (op == "redefect" && P == "C04") {
+            // the description of an initialised table is edited and register_init runs again on the same object
+            Rng r2((uint64_t)o.geti("salt") * 2654435761ULL + 17);
+            int d = (int)(o.geti("d") % 9); if (d < 0) d = 0;
+            TableSpec edited = S.spec; apply_defect(edited, d, r2);
+            S.spec = edited;
+            S.build(true, true);
+            std::vector<std::vector<uint16_t>> cb_before = S.cbstore;
+            RegisterInit ri = register_init(&S.tbl);
+            c.ev(EV_API, 102, (uint64_t)ri.code, ri.pos.address); c.ops_done++; c.execs++;
+            std::vector<InitVerdict> want = ref_init(S.spec);
+            check_init(S, ri, want, cb_before, "reinit");
+            if (!c.viol.empty()) return;
+            if (ri.code != REG_INIT_SUCCESS) { COUNT("probe.reinit_of_initialised_table_rejected"); probe_uninitialised(S); S.inited = false; return; }
+            S.sync_model_from_actual();
+            return;
+        }
         if (op == "restart" && P == "C04") {
             std::vector<std::vector<uint16_t>> cb_before = S.cbstore;
             bool any_cb = false; for (auto &a : t.areas) if (!a.mem) any_cb = true;
@@ -852,8 +894,14 @@ struct RegHarness : Harness {
     template <class FF> void op_sanitise(Sim &S, FF &F) {
         Ctx &c = S.c; const TableSpec &t = S.spec; const size_t nr = t.regs.size();
         // the property speaks about tables without always-fail registers, with valid defaults, all areas writable by callback
-        for (auto &g : t.regs) if (g.ck == CK_FAIL || !default_ok(g)) return;
-        for (auto &a : t.areas) if (!a.has_write) return;
+        bool judged = true;
+        for (auto &g : t.regs) if (g.ck == CK_FAIL || !default_ok(g)) judged = false;
+        for (auto &a : t.areas) if (!a.has_write) judged = false;
+        if (!judged) {   // outside what the property promises: run it unjudged and carry on from the state it leaves
+            RegisterAccess ua = register_sanitise(&S.tbl); c.ev(EV_API, 9, (uint64_t)ua.code, ua.address); c.execs++;
+            if (ua.code != REG_ACCESS_SUCCESS) COUNT("probe.sanitise_left_through_error_path");
+            S.sync_model_from_actual(); return;
+        }
         std::vector<char> need(nr, 0); size_t nreset = 0;
         for (size_t r = 0; r < nr; ++r) { need[r] = !S.reg_ok(r); nreset += need[r]; }
         RegisterAccess a = register_sanitise(&S.tbl);
